@@ -509,7 +509,16 @@ fn soft_keyword_lookahead(cx: &mut Ctx, sk: &Src, nx: &syn::ImplItemFn, rule: &s
         let Some(m) = mm else { return };
         loops += 1;
         let lname = format!("loop{}", loops);
+        // the bracket-depth counter is the local the arm guards compare with 0
         let mut counter: Option<String> = None;
+        for arm in &m.arms {
+            if let Some((_, g)) = &arm.guard {
+                let gt = sm::tsc(g);
+                if let Some(c) = gt.strip_suffix("==0") {
+                    counter = Some(c.to_string());
+                }
+            }
+        }
         let mut inc: BTreeSet<String> = BTreeSet::new();
         let mut dec: BTreeSet<String> = BTreeSet::new();
         let mut newline_break = false;
@@ -519,11 +528,12 @@ fn soft_keyword_lookahead(cx: &mut Ctx, sk: &Src, nx: &syn::ImplItemFn, rule: &s
             if pat == "Tok::Newline" && body == "break" {
                 newline_break = true;
             }
-            if let Some(rest) = body.strip_suffix("+=1") {
-                counter = Some(rest.to_string());
-                inc.extend(pat.split('|').map(|p| p.trim_start_matches("Tok::").to_string()));
-            } else if body.ends_with("-=1") {
-                dec.extend(pat.split('|').map(|p| p.trim_start_matches("Tok::").to_string()));
+            if let Some(c) = &counter {
+                if body == format!("{}+=1", c) {
+                    inc.extend(pat.split('|').map(|p| p.trim_start_matches("Tok::").to_string()));
+                } else if body == format!("{}-=1", c) {
+                    dec.extend(pat.split('|').map(|p| p.trim_start_matches("Tok::").to_string()));
+                }
             }
         }
         let Some(counter) = counter else { return };
@@ -540,15 +550,17 @@ fn soft_keyword_lookahead(cx: &mut Ctx, sk: &Src, nx: &syn::ImplItemFn, rule: &s
             cx.fail(rule, &format!("{}/{}/brackets", rule, lname), &sk.loc(w), &format!("depth counter incremented on {:?} but decremented on {:?}", inc, dec));
         }
         for arm in &m.arms {
-            // assignments of `true`/`false` to a plain identifier inside the arm
+            // writes (assignment or compound assignment) to a local other than the depth counter inside the arm
             let mut flags = vec![];
             sm::for_each_expr(&arm.body, |x| {
-                if let syn::Expr::Assign(a) = x {
-                    let r = sm::tsc(&a.right);
-                    if r == "true" || r == "false" {
-                        if let Some(id) = sm::as_ident(&a.left) {
-                            flags.push(id);
-                        }
+                let target = match x {
+                    syn::Expr::Assign(a) => sm::as_ident(&a.left),
+                    syn::Expr::Binary(b) if matches!(b.op, syn::BinOp::AddAssign(_) | syn::BinOp::SubAssign(_)) => sm::as_ident(&b.left),
+                    _ => None,
+                };
+                if let Some(id) = target {
+                    if id != counter && !flags.contains(&id) {
+                        flags.push(id);
                     }
                 }
             });
@@ -561,6 +573,20 @@ fn soft_keyword_lookahead(cx: &mut Ctx, sk: &Src, nx: &syn::ImplItemFn, rule: &s
                 cx.ok(rule, &format!("{}: arm {} sets {:?} only at depth 0", lname, pat, flags));
             } else {
                 cx.fail(rule, &format!("{}/{}/{}", rule, lname, pat), &sk.loc(&arm.pat), &format!("arm `{}` sets {:?} with guard `{}`; the sibling arms treat these flags as top-level facts (guard `{} == 0`)", pat, flags, guard, counter));
+            }
+        }
+        // match/case loop: lambda colons are paired by count (lambdas nest through parameter defaults)
+        let lambda_arm = m.arms.iter().find(|a| sm::tsc(&a.pat) == "Tok::Lambda");
+        let colon_arm = m.arms.iter().find(|a| sm::tsc(&a.pat) == "Tok::Colon");
+        if let (Some(la), Some(ca)) = (lambda_arm, colon_arm) {
+            let lb = sm::tsc(sm::unblock(&la.body));
+            let cb = sm::tsc(&ca.body);
+            let var = lb.strip_suffix("+=1").map(|v| v.to_string());
+            let ok = var.as_ref().map_or(false, |v| cb.contains(&format!("if0<{}{{{}-=1;}}", v, v)) || cb.contains(&format!("if{}!=0{{{}-=1;}}", v, v)));
+            if ok {
+                cx.ok(rule, &format!("{}: every `lambda` is counted and each top-level `:` first closes an open lambda", lname));
+            } else {
+                cx.fail(rule, &format!("{}/{}/lambda-pairing", rule, lname), &sk.loc(&la.pat), &format!("the `lambda` arm is `{}` and the `:` arm `{}`: lambda colons are not paired by count, so with a lambda nested in a parameter default (`match, lambda a=lambda: 1: a`) a lambda's colon is taken for the statement's", lb, cb));
             }
         }
     });
